@@ -61,9 +61,9 @@ def pgmat(R, ntaxa, nvrnt, nchr=1, provenance=False, grouped=True, taxa_grp=True
     return pg
 
 
-def algmod(R, nvrnt, ntrait, beta_zero=False, palette=(-2.0, -1.0, -0.25, 0.0, 0.0, 0.5, 1.0, 3.0)):
+def algmod(R, nvrnt, ntrait, beta_zero=False, palette=(-2.0, -1.0, -0.25, 0.0, 0.0, 0.5, 1.0, 3.0), nfixed=1):
     u = numpy.array([[R.choice(palette) for _ in range(ntrait)] for _ in range(nvrnt)], dtype=float)
-    beta = numpy.zeros((1, ntrait)) if beta_zero else numpy.array([[R.choice([0.0, 10.0, -3.5, 1.0]) for _ in range(ntrait)]])
+    beta = numpy.zeros((nfixed, ntrait)) if beta_zero else numpy.array([[R.choice([0.0, 10.0, -3.5, 1.0]) for _ in range(ntrait)] for _ in range(nfixed)])
     return DenseAdditiveLinearGenomicModel(
         beta=beta, u_misc=None, u_a=u,
         trait=obj(["tr%d" % i for i in range(ntrait)]),
@@ -88,7 +88,7 @@ def _identtr(x, latent, **k):
     return latent
 
 
-def ebv_problem(kind, ebv, nobj=1, ndecn=None, con=False, maxint=3, eq=False):
+def ebv_problem(kind, ebv, nobj=1, ndecn=None, con=False, maxint=3, eq=False, obj_wt=None, caps=False):
     """Small EBV selection problem in one of the four encodings (kind: subset/real/integer/binary)."""
     from pybrops.breed.prot.sel.prob.EstimatedBreedingValueSelectionProblem import (
         EstimatedBreedingValueSubsetSelectionProblem as PS, EstimatedBreedingValueRealSelectionProblem as PR,
@@ -104,6 +104,26 @@ def ebv_problem(kind, ebv, nobj=1, ndecn=None, con=False, maxint=3, eq=False):
         def cvtr(x, latent, **k):          # violation when the last latent component exceeds a threshold
             return numpy.array([max(0.0, float(latent[-1]) + thr)])
         kw = dict(nineqcv=1, ineqcv_wt=numpy.array([1.0]), ineqcv_trans=cvtr)
+    if obj_wt is not None:
+        kw["obj_wt"] = numpy.repeat(float(obj_wt), nobj)
+    if caps and kind == "subset":
+        # discrete (count-valued) constraint components: a cap on the members taken from each of two groups and,
+        # optionally, a quota of flagged members -- different subsets can tie on total violation
+        grp = numpy.array(caps["grp"], dtype=int)
+        cap = numpy.array(caps["cap"], dtype=float)
+
+        def captr(x, latent, **k):
+            g = grp[numpy.asarray(x, dtype=int)]
+            return numpy.maximum(numpy.array([float(numpy.sum(g == 0)), float(numpy.sum(g == 1))]) - cap, 0.0)
+        kw.update(nineqcv=2, ineqcv_wt=numpy.array([1.0, 1.0]), ineqcv_trans=captr)
+        if caps.get("quota") is not None:
+            flag = numpy.array(caps["flag"], dtype=int)
+            q = float(caps["quota"])
+
+            def quotatr(x, latent, **k):
+                return numpy.array([abs(float(numpy.sum(flag[numpy.asarray(x, dtype=int)])) - q)])
+            kw.update(neqcv=1, eqcv_wt=numpy.array([1.0]), eqcv_trans=quotatr)
+            eq = False
     if eq:
         tgt = float(numpy.sort(ebv[:, 0])[len(ebv) // 2])
 
